@@ -106,6 +106,11 @@ func (c *Client) Do(req *http.Request) (resp *http.Response, err error) {
 		return resp, err
 	}
 	if respUnauthorizedNegotiate(resp) {
+		if req.Header.Get(HTTPHeaderAuthRequest) != "" {
+			// The request already carried a token and the server challenges again: authenticating once
+			// more cannot help, hand the response to the caller rather than retrying for ever.
+			return resp, err
+		}
 		err := SetSPNEGOHeader(c.krb5Client, req, c.spn)
 		if err != nil {
 			return resp, err
